@@ -197,6 +197,7 @@ type RunOpts struct {
 	CloneOrd       int                                 // order in which NewKnowledgeBaseInstance clones the rules (see Built.InstanceOrd)
 	DefaultChoice  int                                 // order choice used beyond Choices (clamped to the number of permutations)
 	CountReads     string                              // when set ("F.P->V"): leaf reads of that accessor are logged as events "read:<key>"
+	OrderFn        func(keys []string) []int           // fixed visiting order for programs too wide to enumerate orders (permutation of indexes; nil: by DefaultChoice / Choices)
 	DataCtx        ast.IDataContext                    // use this data context (it must hold the world's own objects) instead of a new one
 	Shared         *SharedEngine                       // run on this shared engine value (its MaxCycle / flag apply) instead of a private one
 	OnHook         func(dc ast.IDataContext, id int64) // what F.Hook(id) does during this run (it gets the run's data context)
@@ -505,6 +506,21 @@ func RunOn(prog *Program, kb *ast.KnowledgeBase, w *ref.World, opts RunOpts, tr 
 	hook := 0
 	setChooser(kb.RuleEntries, func(keys []string) []int {
 		k := len(keys)
+		if opts.OrderFn != nil {
+			hook++
+			tr.Choices = append(tr.Choices, 0)
+			tr.NAlts = append(tr.NAlts, 1)
+			perm := opts.OrderFn(keys)
+			if m.cur != nil && m.cur.Order == nil {
+				ord := make([]string, k)
+				for i := range ord {
+					ord[i] = keys[perm[i]]
+				}
+				m.cur.Order = ord
+				m.cur.NAlt = 1
+			}
+			return perm
+		}
 		np := NPerms(k)
 		ch := opts.DefaultChoice
 		if ch >= np {
